@@ -55,4 +55,21 @@ theorem inv_stepRel (s s' : St) (a : Actor) (r e : Bool) (h : Inv s) (hs : stepR
     | (cases hs; done)
     | (have hc := (chk_some _ _ _ _ hs).1; subst hc; constructor <;> inv_tac h)
 
+/-! what a return step tells about the returning actor -/
+theorem ret_wait_ok (s s' : St) (a : Actor) (r : Bool) (v : Val) (hs : stepRet s a .wait .ok r v = some s') :
+    (s.pc a = .woken ∨ s.pc a = .waitDone) ∧ v = s.value := by
+  unfold stepRet at hs
+  split at hs <;> simp_all
+
+theorem ret_test_true (s s' : St) (a : Actor) (v : Val) (hs : stepRet s a .test .ok true v = some s') :
+    s.pc a = .testDone1 ∧ v = s.value := by
+  unfold stepRet at hs
+  split at hs <;> simp_all
+
+theorem ret_set (s s' : St) (a : Actor) (rc : Rc) (r : Bool) (v : Val) (hs : stepRet s a .set rc r v = some s') :
+    ((s.pc a = .setOkDone ∧ rc = .ok) ∨ (s.pc a = .setErrDone ∧ rc = .errEventual)) ∧ v = s.value ∧
+    s' = setPc s a .idle := by
+  unfold stepRet at hs
+  split at hs <;> simp_all
+
 end ArgoVerif.Model.Eventual
